@@ -128,7 +128,39 @@ fn answer(lib_role: Role, p1: &[u8], expect_digest: Option<[u8; 32]>, what: &str
         }
         let mut input = vec![3u8];
         input.extend_from_slice(p1);
-        (h.process_bytes(&input).map_err(|e| format!("{:?}", e)), pre)
+        // how the bytes are grouped into calls is the transport's business: in a third of the
+        // answers the call that completes packet 1 already carries the first 1-1535 bytes of the
+        // peer's packet 2, in another sixth packet 1 arrives in two calls
+        match seed % 6 {
+            0 | 1 => {
+                let extra = 1 + (seed / 6 % 1535) as usize;
+                input.extend((0..extra).map(|i| (i as u64 * 131 + seed) as u8));
+                (h.process_bytes(&input).map_err(|e| format!("{:?}", e)), pre)
+            }
+            2 => {
+                let cut = 1 + (seed / 6 % 1536) as usize;
+                match h.process_bytes(&input[..cut]) {
+                    Ok(HandshakeProcessResult::InProgress { response_bytes }) if response_bytes.is_empty() || !pregenerate => {
+                        let first = response_bytes;
+                        let r = h.process_bytes(&input[cut..]).map_err(|e| format!("{:?}", e));
+                        // what was returned by the first call belongs in front
+                        (
+                            r.map(|x| match x {
+                                HandshakeProcessResult::InProgress { response_bytes } => {
+                                    let mut all = first.clone();
+                                    all.extend_from_slice(&response_bytes);
+                                    HandshakeProcessResult::InProgress { response_bytes: all }
+                                }
+                                other => other,
+                            }),
+                            pre,
+                        )
+                    }
+                    other => (other.map_err(|e| format!("{:?}", e)), pre),
+                }
+            }
+            _ => (h.process_bytes(&input).map_err(|e| format!("{:?}", e)), pre),
+        }
     });
     let (r, pre) = match r {
         Some(x) => x,
@@ -306,7 +338,7 @@ impl Check for C11 {
         }
     }
     fn rule(&self) -> String {
-        "enumeration of every selector-byte sum 0..=1020 (all 728 digest offsets, both sums where a residue has two) x {own packet 1 as client, as server (via the deterministic fill hook); received packet 1 built by the reference, keyed as client -> library server and keyed as server -> library client, digest placed by scheme at-8 and by scheme at-772; a third of them with unusual time/version fields (all zero, all ones, random) and the digest recomputed; a quarter additionally as a near-miss with one bit flipped inside or outside the digest, which must be answered by an echo}, remaining bytes seeded-random, repeated for up to 32 (quick) / 3200 (thorough) fillings (the first two always); plus digest-less packet 1s (zero version, non-zero version, random, digest keyed for the wrong role) and packets generated with the library's own RNG; in every eighth of these cases the handshake objects are first used 2-3 ms after they were created (injected delay), for one selector sum of the enumeration and one packet of each digest-less kind. Every digest, signature and echo is recomputed with the independent SHA-256/HMAC. distinct = (own/received, role, scheme, offset) combinations observed.".to_string()
+        "enumeration of every selector-byte sum 0..=1020 (all 728 digest offsets, both sums where a residue has two) x {own packet 1 as client, as server (via the deterministic fill hook); received packet 1 built by the reference, keyed as client -> library server and keyed as server -> library client, digest placed by scheme at-8 and by scheme at-772; a third of them with unusual time/version fields (all zero, all ones, random) and the digest recomputed; a quarter additionally as a near-miss with one bit flipped inside or outside the digest, which must be answered by an echo}, remaining bytes seeded-random, repeated for up to 32 (quick) / 3200 (thorough) fillings (the first two always); plus digest-less packet 1s (zero version, non-zero version, random, digest keyed for the wrong role) and packets generated with the library's own RNG; in every eighth of these cases the handshake objects are first used 2-3 ms after they were created (injected delay), for one selector sum of the enumeration and one packet of each digest-less kind. A third of the received packet 1s arrive together with the first 1-1535 bytes of a packet 2, a sixth split over two calls. Every digest, signature and echo is recomputed with the independent SHA-256/HMAC. distinct = (own/received, role, scheme, offset) combinations observed.".to_string()
     }
     fn assumptions(&self) -> Vec<String> {
         vec![
